@@ -12,6 +12,8 @@ def register(reg):
                     props=("C01", "C02", "C13"))
     reg.arith_lemma("block_of_boundary", ["e", "p"], ["p >= 1", "e >= 1", "e % p == 0"],
                     "((e - 1) // p) * p + p == e", props=("C01", "C02", "C13"))
+    reg.arith_lemma("inside_block_not_multiple", ["b", "x", "p"],
+                    ["p >= 1", "b % p == 0", "b < x", "x < b + p"], "x % p != 0", props=("C01",))
     reg.add_class(ClassSpec(
         "TwoLevelCheckpointSchedule", "twolevel_binomial", bases=("CheckpointSchedule",),
         fields=[("_period", "int"), ("_binomial_snapshots", "int"), ("_binomial_storage", "storage"),
@@ -78,7 +80,8 @@ def register(reg):
                   ("fresh_max_n", "self._max_n is None")],
         frame=["_n", "_r", "_max_n"], props=STREAM, exc_props={"*": ("C17", "C01", "C02")},
         locals={"snapshots": ("list", ["int"])},
-        hints={"n0s": [
+        hints={"n0": [("use", "inside_block_not_multiple", ["n0s", "n0", "self._period"])],
+               "n0s": [
             ("use", "block_base", ["g.N - g.adj", "self._period"]),
             ("use", "block_of_boundary", ["g.N - g.adj", "self._period"]),
             ("base_is_multiple_of_period", "n0s % self._period == 0"),
